@@ -66,7 +66,11 @@ func (q c11Req) wire() []byte {
 	if len(q.cookies) > 0 {
 		var cs []string
 		for _, c := range q.cookies {
-			cs = append(cs, c[0]+"="+c[1])
+			if c[0] == "" {
+				cs = append(cs, c[1]) // a name-less pair: the bare value
+			} else {
+				cs = append(cs, c[0]+"="+c[1])
+			}
 		}
 		fmt.Fprintf(&b, "Cookie: %s\r\n", strings.Join(cs, "; "))
 	}
@@ -484,6 +488,9 @@ func init() {
 						}
 						for k := 0; k < r.Intn(3); k++ {
 							cks = append(cks, fmt.Sprintf("c%d=%d", k, r.Intn(100)))
+						}
+						if r.Chance(12) {
+							cks = append(cks, fmt.Sprintf("=opaque%d", r.Intn(100))) // a name-less cookie pair (bare value)
 						}
 						body, form := "", "0"
 						if method == "POST" || method == "PUT" {
